@@ -27,7 +27,7 @@ ASSUMPTIONS = ['the filter / weight model in this file is written from the optio
                'blacklist intervals are longer than a read and their edges are >=2 bp away from read ends (boundary coincidences are don\'t-care)',
                '--splitFeatures together with -byValue is documented as not implemented and not generated']
 MIN_NONTRIVIAL = {'quick': 100, 'thorough': 12000}
-REQUIRED_MONITORS = ['ret:create_count_table', 'output:csv', 'output:pickle', 'files:several_in_one_call', 'oracle:cells_compared', 'opt:dedup', 'opt:no_indels', 'opt:no_softclips', 'opt:divideMultimapping',
+REQUIRED_MONITORS = ['opt:bedfile_rows_not_grouped_with_contig', 'ret:create_count_table', 'output:csv', 'output:pickle', 'files:several_in_one_call', 'oracle:cells_compared', 'opt:dedup', 'opt:no_indels', 'opt:no_softclips', 'opt:divideMultimapping',
                      'opt:byValue', 'opt:bedfile', 'opt:blacklist', 'opt:contig', 'opt:filterXA', 'opt:filterMP', 'reads:filtered_out', 'reads:half_weight']
 SHARD_TIMEOUT = {'quick': 900, 'thorough': 5400}
 
@@ -108,7 +108,7 @@ def gen_bam(r, contigs):
     return recs
 
 
-def make_args(r, bam, dd, contigs, recs):
+def make_args(r, bam, dd, contigs, recs, i=None, seed=0):
     a = dict(alignmentfiles=[bam], head=None, o=None, bin=None, binTag='DS', sliding=None, bedfile=None, showtags=False, featureTags=None,
              joinedFeatureTags=None, byValue=None, sampleTags='SM', proper_pairs_only=False, no_indels=False, max_base_edits=None,
              no_softclips=False, minMQ=0, filterXA=False, dedup=False, divideMultimapping=False, doNotDivideFragments=False, contig=None,
@@ -151,6 +151,28 @@ def make_args(r, bam, dd, contigs, recs):
                 f.write('\t'.join(map(str, row)) + '\n')
         a['bedfile'] = bed
         a['_bed_rows'] = rows
+    if i is not None and i % 8 == 5 and mode.startswith('joined') and len(contigs) >= 2:
+        # -bedfile together with -contig, the BED rows not grouped by contig (regions of the selected contig before and after rows of the others),
+        # regions laid over the read pile-ups
+        r2 = rng(seed, 'C11', 'bed_contig', i)
+        a['contig'] = r2.choice(contigs)[0]
+        by_contig = {}
+        for rec in recs:
+            if rec['tid'] >= 0:
+                by_contig.setdefault(contigs[rec['tid']][0], []).append(rec['pos'])
+        rows = []
+        for j in range(r2.randint(4, 7)):
+            c, ln = contigs[j % len(contigs)] if j % 2 else (a['contig'], dict(contigs)[a['contig']])
+            centre = r2.choice(by_contig[c]) if by_contig.get(c) else r2.randrange(0, ln - 50)
+            st = max(0, centre - r2.randint(0, 150))
+            rows.append((c, st, min(ln, st + r2.randint(40, 400)), f'reg{j}'))
+        bed = os.path.join(dd, 'regions.bed')
+        with open(bed, 'w') as f:
+            for row in rows:
+                f.write('\t'.join(map(str, row)) + '\n')
+        a['bedfile'] = bed
+        a['_bed_rows'] = rows
+        a['_bed_with_contig'] = True
     if r.random() < 0.4:
         # intervals longer than a read, edges >= 2bp away from any read end
         ends = {}
@@ -336,7 +358,8 @@ def run_case(case):
     # several alignment files in one call: the table is the sum of the tables of the files
     more = [gen_bam(r, contigs) for _ in range(r.choice([0, 0, 0, 1, 2]))]
     with Scratch('c11') as dd:
-        a, feats, mode = make_args(r, os.path.join(dd, 'in.bam'), dd, contigs, recs + [x for m in more for x in m])
+        a, feats, mode = make_args(r, os.path.join(dd, 'in.bam'), dd, contigs, recs + [x for m in more for x in m], case['i'], case['seed'])
+        acc.count('opt:bedfile_rows_not_grouped_with_contig', 1 if a.get('_bed_with_contig') else 0)
         bam = write_bam(a['alignmentfiles'][0], contigs, recs)
         for mi, m in enumerate(more):
             a['alignmentfiles'].append(write_bam(os.path.join(dd, f'in_more{mi}.bam'), contigs, m))
